@@ -46,7 +46,7 @@ fn parse_base(data: &[u8]) -> IResult<&[u8], LongRangeAisBroadcastMessage> {
         let (data, longitude) = map(
             |data| signed_i32(data, 18),
             |lon| {
-                parse_longitude(lon).map(|val| {
+                parse_longitude_min_10(lon).map(|val| {
                     if message_type == 27 {
                         val * 1000.0
                     } else {
@@ -59,7 +59,7 @@ fn parse_base(data: &[u8]) -> IResult<&[u8], LongRangeAisBroadcastMessage> {
         let (data, latitude) = map(
             |data| signed_i32(data, 17),
             |lat| {
-                parse_latitude(lat).map(|val| {
+                parse_latitude_min_10(lat).map(|val| {
                     if message_type == 27 {
                         val * 1000.0
                     } else {
@@ -90,6 +90,22 @@ fn parse_base(data: &[u8]) -> IResult<&[u8], LongRangeAisBroadcastMessage> {
             },
         ))
     })(data)
+}
+
+/// Longitude in 1/10 minute; 181 degrees means not available
+fn parse_longitude_min_10(data: i32) -> Option<f32> {
+    match data {
+        108_600 => None,
+        _ => parse_longitude(data),
+    }
+}
+
+/// Latitude in 1/10 minute; 91 degrees means not available
+fn parse_latitude_min_10(data: i32) -> Option<f32> {
+    match data {
+        54_600 => None,
+        _ => parse_latitude(data),
+    }
 }
 
 /// Parse the speed over ground for Long Range AIS Broadcast Message (type 27)
